@@ -172,9 +172,15 @@ package filesystem
 //@   at call KeyStore.readEncryptedKey : assert arg[0] == keyname && arg[1] == keyContext
 //@   ensures err != nil ==> key == nil
 
+// Generating (or rotating) a symmetric key leaves the cache alone: a cached reader keeps offering what it offered until
+// Reset. Replacing the cached current key here while the cached list of historical names stays as it is would stop
+// offering the previous key, which has just moved to the history directory (compare SaveKeyPairWithFilename, which
+// replaces the cached key and therefore drops the list).
 //@ func (store *KeyStore) generateAndSaveSymmetricKey(filename string, keyContext keystore.KeyContext) (err error)
-//@   props C07
+//@   props C06 C07
 //@   noinline *
+//@   nocall KeyStore.Add
+//@   nocall Cache.Add
 //@   at call KeyEncryptor.Encrypt : assert recv == store.encryptor && arg[2] == keyContext && sameslice(arg[1], ret(keystore.GenerateSymmetricKey)[0]) && ret(keystore.GenerateSymmetricKey)[1] == nil
 //@   at call KeyStore.WritePrivateKey : assert arg[0] == filename && sameslice(arg[1], ret(KeyEncryptor.Encrypt)[0]) && ret(KeyEncryptor.Encrypt)[1] == nil
 
@@ -242,3 +248,26 @@ package filesystem
 //@   ensures read-after-the-check: err == nil ==> called(Storage.ReadFile) && sameslice(key.Value, ret(Storage.ReadFile)[0])
 //@   at call Storage.Stat : assert arg[0] == path
 //@   at call Storage.ReadFile : assert arg[0] == path && ret(Storage.Stat)[1] == nil
+
+// ---- keystore v1: saving a key pair (generation and rotation) (C06, C07) ----
+// The private key reaches the file and the cache only as the output of the respective key encryptor under the key's
+// own context. When the cached private key of a file name is replaced (a rotation with a warm cache), the cached list of
+// that file's historical names is dropped in the same operation: the replaced key now lives in the history directory,
+// and a stale list would stop offering it for decryption until the cache is reset.
+//@ func (store *KeyStore) SaveKeyPairWithFilename(keypair *keys.Keypair, filename string, keyContext keystore.KeyContext) (err error)
+//@   props C06 C07
+//@   noinline *
+//@   at call KeyEncryptor.Encrypt#0 : assert recv == store.encryptor && sameslice(arg[1], keypair.Private.Value) && arg[2] == keyContext
+//@   at call KeyStore.WritePrivateKey : assert sameslice(arg[1], ret(KeyEncryptor.Encrypt#0)[0]) && ret(KeyEncryptor.Encrypt#0)[1] == nil
+//@   at call KeyEncryptor.Encrypt#1 : assert recv == store.cacheEncryptor && sameslice(arg[1], keypair.Private.Value) && arg[2] == keyContext
+//@   at call Cache.Add#0 : assert arg[0] == filename && sameslice(arg[1], ret(KeyEncryptor.Encrypt#1)[0]) && ret(KeyEncryptor.Encrypt#1)[1] == nil
+//@   ensures cached-history-list-dropped-with-the-replaced-key: called(Cache.Add#0) ==> called(Cache.Add#2) && argof(Cache.Add#2)[0] == cacheKeyPrefix + ret(filepath.Join#0)[0] && isnil(argof(Cache.Add#2)[1])
+//@   at call filepath.Join#0 : assert len(arg[0]) == 2 && arg[0][0] == store.privateKeyDirectory && arg[0][1] == filename
+//@   ensures saved-means-cached: err == nil ==> called(Cache.Add#0) && called(KeyStore.WritePrivateKey) && ret(KeyStore.WritePrivateKey)[0] == nil
+
+// A dropped (nil) list is a cache miss: the reader lists the directory again.
+//@ func (store *KeyStore) getCachedHistoricalPrivateKeyFilenames(id string) (paths []string, err error)
+//@   props C06
+//@   noinline *
+//@   ensures dropped-list-is-a-miss: isnil(ret(Cache.Get)[0]) || !ret(Cache.Get)[1] ==> err == errCacheMissHistoricalFilenames && paths == nil
+//@   at call Cache.Get : assert arg[0] == cacheKeyPrefix + id
